@@ -501,6 +501,7 @@ class World:
             finally:
                 k.shutdown()
             self._identity_probe()
+            self._probe_run_after_rejected_id()
         self.res.sim_time_us = k.now
         self.after_run()
 
@@ -560,6 +561,32 @@ class World:
                 self.violate("C19", "session_keys_depend_on_options",
                              f"beacon id {req}: {len(seen)} different aes_rand values across the session and dry runs with other options "
                              f"(pid given / omitted, other names)")
+
+    def _probe_run_after_rejected_id(self):
+        """One client object is asked for an id it has to refuse, the refusal is handled, and the object is then run without
+        an id (it picks one itself): nothing of the refused request may be left behind."""
+        from dissect.cobaltstrike.client import HttpBeaconClient
+        bad = [-1, 2 ** 31, 2 ** 32 - 1][core.draw(self.run_seed, "badid") % 3]
+        c = HttpBeaconClient()
+        c.logger = _NullLogger()
+        try:
+            c.run(self.bconfig, dry_run=True, beacon_id=bad)
+            return          # (whether such an id is refused is judged where sessions are started with it)
+        except ValueError:
+            pass
+        except Exception:  # noqa: BLE001
+            return
+        self.res.probes["run_without_id_after_rejected_id"] += 1
+        try:
+            c.run(self.bconfig, dry_run=True)
+        except Exception as e:  # noqa: BLE001
+            self.violate("C19", "run_without_id_fails_after_rejected_id", type(e).__name__,
+                         f"a client object whose run(beacon_id={bad}) was refused with ValueError raised {e!r} when run again "
+                         f"without a beacon id")
+            return
+        if not (0 <= c.beacon_id < 2 ** 31 and c.beacon_id % 2 == 0 and int(c.metadata.bid) == c.beacon_id):
+            self.violate("C19", "self_chosen_id_invalid_after_rejected_id",
+                         f"after a refused run(beacon_id={bad}) the same object, run without an id, presents {c.beacon_id}")
 
     def _pending_tasks(self) -> int:
         n = 0
